@@ -76,7 +76,10 @@ type (
 	}
 )
 
-func (v *NumVal) IsInt() bool { return v.V == math.Trunc(v.V) }
+// IsInt 整数且在 int64 范围内 (超出范围 int64(v.V) 的结果未定义, 不能按整数格式化)
+func (v *NumVal) IsInt() bool {
+	return v.V == math.Trunc(v.V) && v.V >= -9223372036854775808.0 && v.V < 9223372036854775808.0
+}
 func (v *NumVal) Int() int64  { return int64(v.V) }
 
 func (v *Val) Bool() *BoolVal   { return (*BoolVal)(unsafe.Pointer(v)) }
